@@ -38,7 +38,7 @@ type event struct {
 	ft        storage.FileType
 	num       int64
 	n         int
-	completes int // journal records completed by this write (journal files only)
+	completes int  // journal records completed by this write (journal files only)
 	partial   bool // a journal record is incomplete on disk after this write
 }
 
